@@ -264,7 +264,10 @@ Module LIM.
         if Nat.ltb (out s) n then Some (mk (S (out s)) (S (nb s)) (nr s), 0) else None
     | 1 => (* TryBorrow: select send / default               l.31-38 *)
         if Nat.ltb (out s) n then Some (mk (S (out s)) (S (nb s)) (nr s), 1) else Some (s, 0)
-    | _ => (* Return: select receive / default: ErrLimitReturn l.42-49; result 0 = nil, 1 = ErrLimitReturn *)
+    | _ => (* Return: if cap(l.pool) == 0 { return ErrLimitReturn } (a limit of 0 never lends anything; without
+              this test the receive would pair with a sender blocked in Borrow); then select receive /
+              default: ErrLimitReturn; result 0 = nil, 1 = ErrLimitReturn *)
+        if Nat.eqb n 0 then Some (s, 1) else
         match out s with
         | S k => Some (mk k (nb s) (S (nr s)), 0)
         | O => Some (s, 1)
